@@ -407,6 +407,9 @@ func allPkgConfigs() []pkgConfig {
 		{name: "empty-lox-file", files: map[string]string{"g.lox": "", "p.go": validGo}},
 		{name: "lexer-only-spec", files: map[string]string{"g.lox": "@lexer\nA = 'a'\n", "p.go": "package pkg\n\ntype Token struct{}\n\ntype parser struct{ lox }\n"}},
 		{name: "parser-only-spec-undefined-tokens", files: map[string]string{"g.lox": "@parser\n@start s = A\n", "p.go": validGo}},
+		{name: "starf-element-rule-without-action", files: map[string]string{"g.lox": "@lexer\nA = 'a'\n@parser\n@start s = x*!\nx = A\n", "p.go": "package pkg\n\ntype Token struct{}\n\ntype parser struct{ lox }\n\nfunc (p *parser) on_s(xs []int) int { return 0 }\n"}},
+		{name: "plus-element-rule-without-action", files: map[string]string{"g.lox": "@lexer\nA = 'a'\nB = 'b'\n@parser\n@start s = x+ y? @list(z, B)\nx = A\ny = A\nz = A\n", "p.go": "package pkg\n\ntype Token struct{}\n\ntype parser struct{ lox }\n\nfunc (p *parser) on_s(xs []int, y int, zs []int) int { return 0 }\n"}},
+		{name: "start-rule-without-action", files: map[string]string{"g.lox": "@lexer\nA = 'a'\n@parser\n@start s = x*\nx = A\n", "p.go": "package pkg\n\ntype Token struct{}\n\ntype parser struct{ lox }\n\nfunc (p *parser) on_x(a Token) int { return 0 }\n"}},
 		{name: "left-zero", files: map[string]string{"g.lox": "@lexer\nA='a'\nB='b'\n@parser\n@start e = e A e @left(0) | B\n", "p.go": validGo}},
 		{name: "left-overflow", files: map[string]string{"g.lox": "@lexer\nA='a'\nB='b'\n@parser\n@start e = e A e @left(99999999999999999999) | B\n", "p.go": validGo}},
 	}
